@@ -394,14 +394,24 @@ func amountRule(c *Ctx) {
 	unds := w.AllEffects(func(e ir.Effect) bool { return e.Method == "UndelegateCoinsFromModuleToAccount" })
 	sort.Slice(unds, func(i, j int) bool { return unds[i].Site.Pos() < unds[j].Site.Pos() })
 	isHasNeg := func(p ir.Pred, pol bool, plusSpendable bool, f *ssa.Function) bool {
-		if p.Pol != pol {
-			return false
-		}
 		e := p.E
-		if !(e.Op == "res" && e.Name == "1" && len(e.Args) == 1 && e.Args[0].Op == "call" && strings.HasSuffix(e.Args[0].Name, "types.Coins).SafeSub")) {
+		var a []*ir.Expr
+		switch {
+		case e.Op == "res" && e.Name == "1" && len(e.Args) == 1 && e.Args[0].Op == "call" && strings.HasSuffix(e.Args[0].Name, "types.Coins).SafeSub"):
+			// _, hasNeg := lhs.SafeSub(fee)
+			if p.Pol != pol {
+				return false
+			}
+			a = e.Args[0].Args
+		case e.Op == "call" && strings.HasSuffix(e.Name, "types.Coins).IsAllGTE"):
+			// lhs.IsAllGTE(fee) is "not hasNeg" for a fee of one denomination
+			if p.Pol == pol {
+				return false
+			}
+			a = e.Args
+		default:
 			return false
 		}
-		a := e.Args[0].Args
 		if len(a) != 2 {
 			return false
 		}
@@ -410,7 +420,7 @@ func amountRule(c *Ctx) {
 		hasSpend := lhs.Any(func(x *ir.Expr) bool { return x.Op == "call" && strings.HasSuffix(x.Name, ".SpendableCoins") })
 		rhs := w.Expand(a[1], 3)
 		feeD := rhs.Any(func(x *ir.Expr) bool {
-			return x.Op == "call" && strings.HasSuffix(x.Name, "types.Coins).Find") && len(x.Args) == 2 && isParamPath(x.Args[0]) && isEntParam(c, x.Args[1], "Denom")
+			return x.Op == "call" && (strings.HasSuffix(x.Name, "types.Coins).Find") || strings.HasSuffix(x.Name, "types.Coins).AmountOf")) && len(x.Args) == 2 && isParamPath(x.Args[0]) && isEntParam(c, x.Args[1], "Denom")
 		})
 		return hasLocked && feeD && hasSpend == plusSpendable
 	}
@@ -444,7 +454,7 @@ func amountRule(c *Ctx) {
 			g1 := guarded(func(p ir.Pred) bool { return isHasNeg(p, true, false, f) })
 			g2 := guarded(func(p ir.Pred) bool { return isHasNeg(p, false, true, f) })
 			r.Require(g1 && g2, "A2.amount-rule", key+"|all-locked", pos(c, ue.Site), "the whole locked amount is unlocked only when it does not cover the fee but spendable + locked does", fmt.Sprintf("locked<fee guard=%v, spendable+locked>=fee guard=%v", g1, g2))
-		case isParamPath(amt):
+		case isParamPath(amt) || feePortion(c, amt):
 			if guarded(func(p ir.Pred) bool { return isHasNeg(p, false, false, f) }) {
 				n++
 				r.OK("A2.amount-rule", key+"|fee", pos(c, ue.Site), "the fee is unlocked only when locked − fee (fee denomination) is not negative")
@@ -538,4 +548,18 @@ func spendableNeutral(c *Ctx) {
 			"the minted coins are sent to "+delegator+" and delegated back from that account")
 	}
 	r.Floor("delegations into the enterprise escrow", n, 1)
+}
+
+// feePortion: amt is the part of the fee coins (a parameter) in the enterprise denomination, as a coin set:
+// NewCoins(NewCoin(params.Denom, fees.AmountOf(params.Denom))).
+func feePortion(c *Ctx, amt *ir.Expr) bool {
+	x := c.W.Expand(amt, 3)
+	if calleeIs(x, "types.NewCoins") && len(x.Args) == 1 && x.Args[0].Op == "list" && len(x.Args[0].Args) == 1 {
+		x = x.Args[0].Args[0]
+	}
+	if !calleeIs(x, "types.NewCoin") || len(x.Args) != 2 || !isEntParam(c, x.Args[0], "Denom") {
+		return false
+	}
+	a := x.Args[1]
+	return a.Op == "call" && strings.HasSuffix(a.Name, "types.Coins).AmountOf") && len(a.Args) == 2 && isParamPath(a.Args[0]) && isEntParam(c, a.Args[1], "Denom")
 }
